@@ -942,6 +942,7 @@ class C10(Property):
         yield from self.prepeptide_cases(rng, deep)
         yield from self.qualtext_cases(rng, deep)
         yield from self.dom_cases(rng, deep)
+        yield from self.annot_cases(rng, deep)
         if deep:
             yield from self._precomputed(self.small_scope())
         self.extra_coverage = {"records_generated": count, "worker_processes": WORKERS}
@@ -1316,6 +1317,154 @@ class C10(Property):
         return Judgement(not problems, not bad, in_scope=bool(drv["scope"]) and exact, known=known, nontrivial=True,
                          tags=tuple(tags), detail="; ".join(bad + problems)[:1500])
 
+    # ---- analysis annotations with qualifiers of their own: type II PKS (protocluster), Pfam identifier / GO terms
+    def annot_cases(self, rng: random.Random, deep: bool) -> Iterator[Dict[str, Any]]:
+        terms = [["GO:0009055", "electron transfer activity"], ["GO:0016491", "oxidoreductase activity"], ["GO:0016020", "membrane"],
+                 ["GO:0004871", "signal transducer activity: x"], ["GO:0007165", "signal transduction"], ["X:1", "a: b"]]
+        for i in range(3000 if deep else 400):
+            if i % 2 == 0:
+                elong = rng.choice([[], [], ["7 (Score: 120.5; E-value: 1.2e-30)"], ["8|9 (Score: 99.0; E-value: 3e-20)", "7 (Score: 1.0; E-value: 0.5)"]])
+                weights = [] if not elong else rng.choice([[["acetyl-CoA_7", 342.347]], [["acetyl-CoA_8", 384.384], ["malonamyl-CoA_9", 455.5]],
+                                                          [["a b_7", 300.0]], [["x(y)_1", 1.0], ["acetyl-CoA_8", 342.25]],
+                                                          [["acetyl-CoA_7", 342.34721]]])
+                case = {"f": "annot", "kind": "t2pks", "starters": rng.choice([["acetyl-CoA (Score: 0.0; E-value: 0.0)"]] * 5 + [["s1", "s2"]] * 4 + [[]]),
+                        "elongations": elong, "weights": weights,
+                        "classes": rng.choice([[], ["angucycline"], ["angucycline", "anthracycline"]])}
+                if rng.random() < 0.08:
+                    case["weights"] = [] if case["weights"] else [["lonely_1", 1.0]]      # refused by the constructor
+                if i % 6 == 4:
+                    key = rng.choice(["t2pks_starter_units", "t2pks_malonyl_elongations", "t2pks_molecular_weights", "t2pks_product_classes"])
+                    case["mutate"] = rng.choice([["del", key], ["set", key, []], ["set", key, ["x"]], ["set", key, ["a (Da): 1.000", "a (Da): 2.000"]],
+                                                 ["set", key, ["a(Da):1"]], ["set", key, ["(Da): 1"]]])
+            else:
+                case = {"f": "annot", "kind": "pfam", "description": rng.choice(["a description", "Cytochrome b(C-terminal)/b6/petD", "x"]),
+                        "identifier": rng.choice(["PF00032", "PF00001", "PF12345"]), "version": rng.choice([None, None, 1, 14, 20]),
+                        "go": None if rng.random() < 0.3 else rng.sample(terms, rng.choice([1, 2, 2, 3, 4]))}
+                if i % 6 == 5:
+                    key = rng.choice(["description", "db_xref", "gene_ontologies"])
+                    case["mutate"] = rng.choice([["del", key], ["set", key, []], ["set", key, [""]], ["set", key, ["PF00001.x"]],
+                                                 ["set", key, ["PF1"]], ["set", key, ["GI:1", "PF00001"]], ["set", key, ["no separator"]],
+                                                 ["set", key, ["PF00002.3", "GO:1", "GO:0"]], ["set", key, ["a: b", "a: c", "b: d"]]])
+            yield case
+
+    @staticmethod
+    def observe_annot(case: Dict[str, Any]) -> Dict[str, Any]:
+        def damage(quals: Dict[str, List[str]]) -> None:
+            if case["mutate"][0] == "del":
+                quals.pop(case["mutate"][1], None)
+            else:
+                quals[case["mutate"][1]] = list(case["mutate"][2])
+        if case["kind"] == "t2pks":
+            from antismash.common.secmet.qualifiers.t2pks import T2PKSQualifier
+
+            def dump(t2: Any) -> Any:
+                if t2 is None:
+                    return None
+                return {"starters": list(t2.starter_units), "elongations": list(t2.malonyl_elongations), "classes": list(t2.product_classes),
+                        "weights": [[k, f"{v:.3f}"] for k, v in t2.molecular_weights.items()], "@weights": dict(t2.molecular_weights)}
+            try:
+                t2 = T2PKSQualifier(list(case["starters"]), list(case["elongations"]), list(case["classes"]),
+                                    {k: v for k, v in case["weights"]})
+            except ValueError:
+                return {"err": "value-error"}
+            quals = {k: list(v) for k, v in t2.to_biopython_qualifiers().items()}
+            out: Dict[str, Any] = {"state": dump(t2), "quals": qlist(quals)}
+            if case.get("mutate"):
+                damage(quals)
+                out["mutated"] = qlist(quals)
+            try:
+                back = T2PKSQualifier.from_biopython_qualifiers(quals)
+                out["back"] = {"ok": {"t2": dump(back), "left": qlist(quals)}}
+            except Exception as exc:  # pylint: disable=broad-except
+                out["back"] = {"err": err_kind(exc)}
+            return out
+        from Bio.SeqFeature import SeqFeature
+        from antismash.common.secmet.features import PFAMDomain
+        from antismash.common.secmet.locations import FeatureLocation
+        from antismash.common.secmet.qualifiers import GOQualifier
+        keys = ("description", "db_xref", "gene_ontologies")
+
+        def dump_p(dom: Any) -> Dict[str, Any]:
+            return {"description": dom.description, "identifier": dom.identifier, "version": dom.version,
+                    "go": None if dom.gene_ontologies is None else [[k, v] for k, v in dom.gene_ontologies.go_entries.items()]}
+
+        def three(bio: Any) -> List[List[Any]]:
+            return [[k, list(bio.qualifiers[k])] for k in keys if k in bio.qualifiers]
+        full = case["identifier"] + ("" if case["version"] is None else f".{case['version']}")
+        dom = PFAMDomain(FeatureLocation(0, 30, 1), case["description"], FeatureLocation(0, 10), full, "pfamtool", "locus")
+        dom.domain_id = "pfam_locus_1"
+        if case["go"] is not None:
+            dom.gene_ontologies = GOQualifier({k: v for k, v in case["go"]})
+        bio = dom.to_biopython()[0]
+        out = {"state": dump_p(dom), "quals": three(bio)}
+        quals = {k: list(v) for k, v in bio.qualifiers.items()}
+        if case.get("mutate"):
+            damage(quals)
+            out["mutated"] = [[k, list(quals[k])] for k in keys if k in quals]
+        try:
+            back = PFAMDomain.from_biopython(SeqFeature(bio.location, type=bio.type, qualifiers=quals))
+            out["back"] = {"ok": {"p": dump_p(back), "xref": list(back._qualifiers.get("db_xref", []))}}
+            out["again"] = {"ok": three(back.to_biopython()[0])}
+        except Exception as exc:  # pylint: disable=broad-except
+            out["back"] = {"err": err_kind(exc)}
+        return out
+
+    def judge_annot(self, case: Dict[str, Any], obs: Dict[str, Any], drv: Dict[str, Any]) -> Judgement:
+        tags = ["annot:" + case["kind"]]
+        if "err" in obs:
+            return Judgement(True, True, in_scope=False, tags=tuple(tags + ["refused-by-constructor"]))
+
+        def clean(x: Any) -> Any:
+            if isinstance(x, dict):
+                return {k: clean(v) for k, v in x.items() if not k.startswith("@")}
+            if isinstance(x, list):
+                return [clean(v) for v in x]
+            return x
+        real_back = clean(obs["back"])
+        if "mutated" in obs:
+            tags.append("damaged:" + ("accepted" if "ok" in obs["back"] else obs["back"]["err"]))
+            if real_back.get("err", "").startswith(("value-error:", "other:")):
+                return Judgement(True, True, in_scope=False, tags=tuple(tags + ["number-text"]))
+            model_back = drv["back"]
+            if case["kind"] == "t2pks" and "ok" in model_back and model_back["ok"]["t2"]:
+                # the model keeps the weight's text, the implementation's number is shown with three decimals
+                def shown(text: str) -> str:
+                    try:
+                        return f"{float(text):.3f}"
+                    except ValueError:
+                        return text
+                t2 = model_back["ok"]["t2"]
+                model_back = {"ok": dict(model_back["ok"], t2=dict(t2, weights=[[k, shown(v)] for k, v in t2["weights"]]))}
+            corr = model_back == real_back
+            return Judgement(corr, True, in_scope=False, nontrivial=True, tags=tuple(tags),
+                             detail="" if corr else f"reading {obs['mutated']}: model {drv['back']} vs implementation {real_back}")
+        problems = [f"{k}: model {drv.get(k)} vs implementation {v}" for k, v in (("quals", obs["quals"]), ("back", real_back))
+                    if drv.get(k) != v]
+        if "again" in obs and drv.get("again") != obs["again"]:
+            problems.append(f"second write: model {drv.get('again')} vs implementation {obs['again']}")
+        bad = []
+        known = None
+        if "err" in obs["back"]:
+            bad.append(f"reading back raised {obs['back']['err']}")
+        elif case["kind"] == "t2pks":
+            before, after = obs["state"], obs["back"]["ok"]["t2"]
+            if after is None or {k: v for k, v in before.items() if k != "weights"} != {k: v for k, v in after.items() if k != "weights"}:
+                bad.append(f"annotation {before} came back as {after}")
+                if after is not None and clean(before) == clean(after) and \
+                        {k: float(f"{v:.3f}") for k, v in before["@weights"].items()} == after["@weights"]:
+                    known = KF_PRECISION
+            if obs["back"]["ok"]["left"]:
+                bad.append(f"qualifiers left over: {obs['back']['ok']['left']}")
+        else:
+            before, after = obs["state"], obs["back"]["ok"]["p"]
+            same_terms = (before["go"] is None) == (after["go"] is None) and sorted(before["go"] or []) == sorted(after["go"] or [])
+            if {k: v for k, v in before.items() if k != "go"} != {k: v for k, v in after.items() if k != "go"} or not same_terms:
+                bad.append(f"Pfam data {before} came back as {after}")
+            if obs["again"]["ok"] != obs["quals"]:
+                bad.append(f"second write {obs['again']['ok']} differs from the first {obs['quals']}")
+        return Judgement(not problems, not bad, in_scope=bool(drv.get("scope")) and known is None, known=known, nontrivial=True,
+                         tags=tuple(tags), detail="; ".join(bad + problems)[:1500])
+
     def _precomputed(self, cases: Iterator[Dict[str, Any]]) -> Iterator[Dict[str, Any]]:
         """runs the real round trips of a chunk of cases in worker processes (the implementation side is
         pure per case); `run_impl` then finds the observation in the cache"""
@@ -1370,6 +1519,8 @@ class C10(Property):
             return self.observe_qualtext(case)
         if case["f"] == "dom":
             return self.observe_dom(case)
+        if case["f"] == "annot":
+            return self.observe_annot(case)
         try:
             rec = build_record(case)
         except Exception as exc:  # pylint: disable=broad-except
@@ -1426,6 +1577,14 @@ class C10(Property):
     def driver_line(self, case: Dict[str, Any], obs: Dict[str, Any]) -> Optional[Dict[str, Any]]:
         if case["f"] == "prepeptide":
             return dict(case, re=obs.get("re"))
+        if case["f"] == "annot":
+            if "state" not in obs:
+                return None
+            if "mutated" in obs:
+                return {"f": "annot", "kind": case["kind"], "quals": obs["mutated"]}
+            if case["kind"] == "t2pks":
+                return dict({k: v for k, v in obs["state"].items() if not k.startswith("@")}, f="annot", kind="t2pks")
+            return dict(obs["state"], f="annot", kind="pfam")
         if case["f"] == "dom":
             if "state" not in obs:
                 return None
@@ -1505,6 +1664,8 @@ class C10(Property):
         if case["f"] == "qualtext":
             assert drv is not None
             return self.judge_qualtext(case, obs, drv)
+        if case["f"] == "annot":
+            return self.judge_annot(case, obs, drv or {})
         if case["f"] == "dom":
             if drv is None:
                 return self.judge_dom(case, obs, {})
